@@ -71,6 +71,7 @@ where
     let r2 = result.clone();
     std::thread::Builder::new()
         .name("zsim-blocking".into())
+        .stack_size(256 * 1024)
         .spawn(move || {
             MY.with(|m| m.set(Arc::as_ptr(&h2)));
             {
